@@ -122,17 +122,32 @@ TagEpochs(g, sub) == {m.ep : m \in {x \in MsgSet(g) : x.ep # -1 /\ TagMatch(x.t,
 TagEpochsPlain(g, sub) == {m.ep : m \in {x \in MsgSet(g) : x.ep # -1 /\ <<x.t, sub>> \in Substr}}
 
 -----------------------------------------------------------------------------
-Init ==
+InitWith(firstLeafRow) ==
     /\ groups = EmptyFn /\ byNostr = EmptyFn
     /\ relays = [g \in Groups |-> {}]
     /\ secrets = [g \in Groups |-> EmptyFn]
     /\ mls = [g \in Groups |-> EmptyMls]
-    /\ leafSeq = 0
+    /\ leafSeq = firstLeafRow
     /\ glob = EmptyFn
     /\ messages = [g \in Groups |-> EmptyFn]
     /\ processed = EmptyFn /\ welcomes = EmptyFn /\ pwelcomes = EmptyFn
     /\ snaps = EmptyFn
     /\ ret = Ok("Init", 0) /\ dv = {} /\ seen = {}
+
+Init == InitWith(0)
+
+\* a fresh, empty store (used between the histories of one trace file)
+Reset ==
+    /\ groups' = EmptyFn /\ byNostr' = EmptyFn
+    /\ relays' = [g \in Groups |-> {}]
+    /\ secrets' = [g \in Groups |-> EmptyFn]
+    /\ mls' = [g \in Groups |-> EmptyMls]
+    /\ leafSeq' = 0
+    /\ glob' = EmptyFn
+    /\ messages' = [g \in Groups |-> EmptyFn]
+    /\ processed' = EmptyFn /\ welcomes' = EmptyFn /\ pwelcomes' = EmptyFn
+    /\ snaps' = EmptyFn
+    /\ ret' = Ok("Reset", 0) /\ dv' = {} /\ seen' = {}
 
 \* a call that is refused changes nothing
 Refuse(op) == ret' = Er(op) /\ dv' = {} /\ UNCHANGED store
@@ -412,7 +427,8 @@ RollbackUpToLeafOrder(g, n) ==
     /\ RoutesTo(byNostr, g)' = {r.nid : r \in Img(snaps[<<g, n>>].t.grp)}
     /\ snaps' = Del(snaps, <<g, n>>)
     /\ OthersUntouched(g)
-\* the same, except that the nostr id of the restored record was taken away from the group that held it
+\* the same, except for the routes of other groups: the nostr id of a restored record was taken away from the group
+\* that held it (in this step, or earlier in the history: the index stays inconsistent from then on)
 RollbackButStolenRoute(g, n) ==
     /\ <<g, n>> \in DOMAIN snaps
     /\ GroupScopedObs(g)' = ObsOfCopy(snaps[<<g, n>>].t)
@@ -431,7 +447,7 @@ C09_RollbackStep ==
         \/ RollbackExact(g, n)
         \/ /\ "SqlRestoreReordersLeaves" \in dv' /\ RollbackUpToLeafOrder(g, n)
            /\ KnownFinding("C09", "SqlRestoreReordersLeaves")
-        \/ /\ "MemRollbackStealsNostrId" \in dv' /\ RollbackButStolenRoute(g, n)
+        \/ /\ "MemRollbackStealsNostrId" \in (seen \cup dv') /\ RollbackButStolenRoute(g, n)
            /\ KnownFinding("C09", "MemRollbackStealsNostrId")
 C09_RollbackStepPlain == \A g \in Groups, n \in Names : (CallIs("Rollback", g, n) /\ ret'.res = "ok") => RollbackExact(g, n)
 
